@@ -4,10 +4,19 @@
 package metrics
 
 import (
+	"strings"
 	"time"
 
 	"github.com/prometheus/client_golang/prometheus"
 )
+
+// labelValue makes a peer-supplied string usable as a label value. The Node ID of a peer
+// may be an FQDN, whose labels are arbitrary octet strings; the Prometheus client panics
+// on a label value that is not valid UTF-8, and that panic silenced the whole
+// association: no message of that peer was answered any more.
+func labelValue(v string) string {
+	return strings.ToValidUTF8(v, "\uFFFD")
+}
 
 type Service struct {
 	msgCount    *prometheus.CounterVec
@@ -80,18 +89,18 @@ func NewPrometheusService() (*Service, error) {
 }
 
 func (s *Service) SaveMessages(msg *Message) {
-	s.msgCount.WithLabelValues(msg.NodeID, msg.MsgType, msg.Direction, msg.Result).Inc()
-	s.msgDuration.WithLabelValues(msg.NodeID, msg.MsgType, msg.Direction).Observe(msg.Duration)
+	s.msgCount.WithLabelValues(labelValue(msg.NodeID), msg.MsgType, msg.Direction, msg.Result).Inc()
+	s.msgDuration.WithLabelValues(labelValue(msg.NodeID), msg.MsgType, msg.Direction).Observe(msg.Duration)
 }
 
 func (s *Service) SaveSessions(sess *Session) {
 	if sess.Duration == 0 {
-		s.sessions.WithLabelValues(sess.NodeID).Inc()
+		s.sessions.WithLabelValues(labelValue(sess.NodeID)).Inc()
 		return
 	}
 
-	s.sessions.WithLabelValues(sess.NodeID).Dec()
-	s.sessionDuration.WithLabelValues(sess.NodeID).Observe(sess.Duration)
+	s.sessions.WithLabelValues(labelValue(sess.NodeID)).Dec()
+	s.sessionDuration.WithLabelValues(labelValue(sess.NodeID)).Observe(sess.Duration)
 }
 
 func (s *Service) Stop() error {
